@@ -31,7 +31,44 @@ def run(out, info, tier, seed):
                                extra_obligations=[('Sched.Inv (invariant preserved by every event)', 'Sched/Inv'),
                                                   ('Sched.Guards / Sched.Final', 'Sched/Final')])
     out.coverage['nontrivial_rule'] = 'some step received max_advance < until'
+    out.coverage['non_integral_until_runs'] = float_until_family(out)
+
+
+def float_until_one(j, frac):
+    """`until` need not be a whole number (a duration divided by a step size): steps are performed at the integer times before
+    it, and the promise still never exceeds it - a simulator that nothing can trigger is promised exactly `until`"""
+    import random
+    from .. import simlib, gen
+    rng = random.Random(7001 + j)
+    case = gen.gen_case(rng, groups=False, clean=1.0, maxn=3)
+    case['until'] = case['until'] + frac
+    r = simlib.run_case(case, lazy=bool(j % 2), cache=True, strategy='oldest', seed=j)
+    if r.build_error is not None or r.outcome != 'ok': return None       # (not a scenario this family is about)
+    triggered = {e['b'] for e in case['edges'] if e['da'] in ('ti', 't2')}
+    bad = []
+    for l in r.log:
+        if l[0] != 'BEGIN' or l[3] is None: continue
+        if l[3] > case['until']: bad.append(f"{l[1]} began {tuple(l[2])} with max_advance={l[3]} > until={case['until']}")
+        elif int(l[1][1:]) not in triggered and l[3] != case['until']: bad.append(f"{l[1]} (no trigger input) began {tuple(l[2])} with max_advance={l[3]}, not until={case['until']}")
+    return dict(kind='float_until', j=j, frac=frac, case=case, observed=bad[:3]) if bad else None
+
+
+def float_until_family(out):
+    n = 0
+    for j in range(8):
+        n += 1
+        v = float_until_one(j, 0.5 if j % 2 == 0 else 0.25)
+        if v:
+            out.violations.append(v); break
+    return n
 
 
 def replay(path, out):
+    import json
+    r0 = json.load(open(path))
+    if r0.get('kind') == 'float_until':
+        v = float_until_one(r0['j'], r0['frac'])
+        print(v['observed'] if v else 'max_advance never exceeded until')
+        if v: print(f'VIOLATION property=C07 replay={path}')
+        return 1 if v else 0
     return sched_check.replay_trace(path, 'C07', monitors.P_C07, KINDS)
